@@ -288,3 +288,61 @@ Section WrapR.
       apply ev_cont. lra.
   Qed.
 End WrapR.
+
+(** ---- the statements of Properties/C14.v, packaged *)
+Lemma call_cases :
+  forall (xmin xmax : R) (ev : R -> R), xmin < xmax ->
+  forall x,
+    (x <= xmin -> call Rops xmin xmax ev x = ev xmin) /\
+    (xmax <= x -> call Rops xmin xmax ev x = ev xmax) /\
+    (xmin <= x <= xmax -> call Rops xmin xmax ev x = ev x).
+Proof.
+  intros xmin xmax ev dom x. split; [|split]; intro H.
+  - now apply call_below.
+  - now apply call_above.
+  - now apply call_inside.
+Qed.
+
+Lemma integrate_below_above :
+  forall (xmin xmax : R) (ev : R -> R) (splint : R -> R -> R) (P : R -> R),
+    xmin < xmax ->
+    (forall a b, xmin <= a -> a <= b -> b <= xmax -> splint a b = P b - P a) ->
+    (forall a, xmax <= a -> splint a xmax = 0) ->
+    forall a b,
+      (a <= xmin -> b <= xmin -> integrate Rops xmin xmax ev splint a b = ev xmin * (b - a)) /\
+      (xmax <= a -> xmax <= b -> integrate Rops xmin xmax ev splint a b = ev xmax * (b - a)).
+Proof.
+  intros xmin xmax ev splint P dom Hin Hab a b. split.
+  - now apply (integrate_below xmin xmax ev splint P).
+  - now apply (integrate_above xmin xmax ev splint P).
+Qed.
+
+Lemma integrate_area_pack :
+  forall (xmin xmax : R) (ev : R -> R) (splint : R -> R -> R) (P : R -> R),
+    xmin < xmax ->
+    (forall a b, xmin <= a -> a <= b -> b <= xmax -> splint a b = P b - P a) ->
+    (forall a, xmax <= a -> splint a xmax = 0) ->
+    (forall a b, xmin <= a -> a <= b -> b <= xmax -> is_RInt ev a b (P b - P a)) ->
+    forall a b,
+      is_RInt (call Rops xmin xmax ev) a b (integrate Rops xmin xmax ev splint a b) /\
+      integrate Rops xmin xmax ev splint a b = RInt (call Rops xmin xmax ev) a b.
+Proof.
+  intros xmin xmax ev splint P dom Hin Hab HI a b. split.
+  - now apply (integrate_is_RInt xmin xmax ev splint P).
+  - now apply (integrate_area xmin xmax ev splint P).
+Qed.
+
+Lemma integrate_area_deriv :
+  forall (xmin xmax : R) (ev : R -> R) (splint : R -> R -> R) (P : R -> R),
+    xmin < xmax ->
+    (forall a b, xmin <= a -> a <= b -> b <= xmax -> splint a b = P b - P a) ->
+    (forall a, xmax <= a -> splint a xmax = 0) ->
+    (forall x, xmin <= x <= xmax -> is_derive P x (ev x)) ->
+    (forall x, xmin <= x <= xmax -> continuous ev x) ->
+    forall a b,
+      integrate Rops xmin xmax ev splint a b = RInt (call Rops xmin xmax ev) a b.
+Proof.
+  intros xmin xmax ev splint P dom Hin Hab HP Hc a b.
+  apply (integrate_area xmin xmax ev splint P); try assumption.
+  now apply ev_RInt_of_deriv.
+Qed.
